@@ -744,16 +744,20 @@ class HfProtocol(utils.EventEmitter):
         self.read_buffer.extend(data)
 
         while self.read_buffer:
-            # Locate header and trailer.
-            header = self.read_buffer.find(b'\r\n')
-            trailer = self.read_buffer.find(b'\r\n', header + 2)
-            if header == -1 or trailer == -1:
+            # Responses are framed as <CR><LF>response<CR><LF>: treat <CR><LF> as a
+            # line delimiter and skip empty lines, so that a stray delimiter sent by
+            # the peer cannot shift the header/trailer pairing of all later responses.
+            trailer = self.read_buffer.find(b'\r\n')
+            if trailer == -1:
                 return
+            if trailer == 0:
+                self.read_buffer = self.read_buffer[2:]
+                continue
 
             # Isolate the AT response code and parameters, and consume the
             # response bytes before parsing them, so that a malformed response
             # is dropped instead of being parsed again on every later call.
-            raw_response = self.read_buffer[header + 2 : trailer]
+            raw_response = self.read_buffer[:trailer]
             self.read_buffer = self.read_buffer[trailer + 2 :]
             try:
                 response = AtResponse.parse_from(raw_response)
